@@ -218,6 +218,20 @@ CHECKS = {
          "strings are a table plus rotation, not all strings.",
     technique="TLA+ spec + TLC; TLC-enumerated hostile payload shapes decoded by the real serializers under audit; TLC trace validation (monitor)",
     ref="6/C04"),
+ "C07": dict(
+    category="model_checking",
+    text="ExcTransport.tla states what the caller must observe for a remote raise by class kind (builtin, Pyro5 error, unknown to the receiver) "
+         "and carriability (same class / args / attributes / remote traceback, or a Pyro error describing the original; proxy usable next); "
+         "Gen_Exc.tla enumerates argument-tuple shape x attribute shape x call kind (240); the harness crosses them with every Exception "
+         "subclass of builtins and of Pyro5.errors (all 240 cases for representative classes, a rotating subset for the others), a class unknown "
+         "to the receiver, unserialisable attribute values, and the four serializers; a real remote method / property / batch member / stream "
+         "raises the instance; the caller's exception is compared with the raised one and the same proxy makes another call; TLC validates per "
+         "case (Trace_Exc.tla).",
+    note="Trusted: exact comparison of class, args and attributes in the harness (nan-aware, tuples modulo the serializer's mapping); in-memory "
+         "transport; TLC. Not generated: StopIteration through batch/stream (PEP 479), UnicodeDecodeError under serpent/json (needs bytes, "
+         "outside their lossless domain), ExceptionGroup.",
+    technique="TLA+ spec + TLC; TLC-enumerated raise shapes crossed with the library's exception whitelist and run through the real call paths; TLC trace validation",
+    ref="6/C07"),
 }
 NOT_YET = {}
 ALL = ["C%02d" % i for i in range(1, 21)]
